@@ -32,7 +32,12 @@ func c02Random(seed uint64, i int, ntexts int) *c01Case {
 	}
 	src := gen.RenderProgram(p)
 	sm := gen.NewSampler(rng, p, TextAlphaFor(sc.Alpha))
-	texts := sm.Inputs(p.Commands[0].Body, ntexts, maxLenFor(p, 14))
+	maxLen := maxLenFor(p, 14)
+	if len(gen.LoopNames(p.Commands[0].Body)) > 0 {
+		// a named loop copies its per-iteration variable maps on every VM step: keep those inputs short
+		maxLen = min(maxLen, 8)
+	}
+	texts := sm.Inputs(p.Commands[0].Body, ntexts, maxLen)
 	return &c01Case{p, src, texts}
 }
 
@@ -109,7 +114,7 @@ func fmtGot(ms []wire.Match) string {
 }
 
 func checkVarsCase(r *drv.Run, cs *c01Case, res *wire.Result, label string) {
-	c := &wire.Case{Op: "run", Src: []byte(cs.src), Texts: cs.texts, StepBudget: 400000}
+	c := &wire.Case{Op: "run", Src: []byte(cs.src), Texts: cs.texts, StepBudget: 150000}
 	if crashOrGuard(r, res, c, cs.src, false) {
 		return
 	}
@@ -228,7 +233,7 @@ func C02(r *drv.Run) {
 	r.Exec(len(shapes), drv.ExecOpts{Batch: 50}, func(i int) *drv.Item {
 		p := shapes[i]
 		cs := &c01Case{prog: p, src: gen.RenderProgram(p), texts: texts}
-		return &drv.Item{Case: wire.Case{Op: "run", Src: []byte(cs.src), Texts: cs.texts, StepBudget: 400000},
+		return &drv.Item{Case: wire.Case{Op: "run", Src: []byte(cs.src), Texts: cs.texts, StepBudget: 150000},
 			Check: func(res *wire.Result) {
 				r.Count("exhaustive_shape_programs", 1)
 				checkVarsCase(r, cs, res, "shape:")
@@ -241,7 +246,7 @@ func C02(r *drv.Run) {
 			r.Count("programs_without_capture_skipped", 1)
 			return nil
 		}
-		return &drv.Item{Case: wire.Case{Op: "run", Src: []byte(cs.src), Texts: cs.texts, StepBudget: 400000},
+		return &drv.Item{Case: wire.Case{Op: "run", Src: []byte(cs.src), Texts: cs.texts, StepBudget: 150000},
 			Check: func(res *wire.Result) { checkVarsCase(r, cs, res, "") }}
 	})
 	if r.NViolations() == 0 {
